@@ -241,7 +241,7 @@ static void case_layout(const Args &a, long idx, bool wantDesc, CaseResult &res,
             double v = evaluate(c, als, rs);
             res.maxi("max_violation_unexcused", v);
             // signature of F49: contradictory constraint set, the layout did report SOME constraint unsatisfiable, but not the one that ends up violated
-            if (v > 1e-4) { res.violate((!satisfiable && !excused.empty()) ? std::string("violated-and-not-reported[contradictory-set,another-constraint-was-reported]") : std::string(c.type) + ":violated-and-not-reported[" + dn[driver] + "]", JObj().num("violation", v).raw("constraint", cjson(c, als)).raw("reported_unsatisfiable", infoj.done()).raw("final_centres", fin.done()).raw("case", desc).done()); }
+            if (v > 1e-4) { res.violate((!satisfiable && !excused.empty()) ? std::string("violated-and-not-reported[contradictory-set,another-constraint-was-reported]") : (satisfiable && avoidOverlaps && !excused.empty()) ? std::string("violated-and-not-reported[satisfiable-user-constraints-with-overlap-avoidance,other-constraints-were-reported]") : std::string(c.type) + ":violated-and-not-reported[" + dn[driver] + "]", JObj().num("violation", v).raw("constraint", cjson(c, als)).raw("reported_unsatisfiable", infoj.done()).raw("final_centres", fin.done()).raw("case", desc).done()); }
         }
         if (satisfiable && !excused.empty()) res.count("satisfiable_cases_with_reports(observation)");
         return;
